@@ -12,6 +12,7 @@ deriving DecidableEq, Repr
 structure State where
   sel : CodecSel := .lines
   rs : Framed.RState := {}
+  ws : Framed.WState := {}
 
 def init : State := {}
 
@@ -26,7 +27,7 @@ def maxChunk : Nat := 1024
 /-- short byte strings in hex, long ones as `#<len>.<hash>` -/
 def showBytes (bs : List Nat) : String :=
   if bs.length ≤ 24 then toHex bs
-  else s!"#{bs.length}.{bs.foldl (fun h b => (h * 31 + b) % 4294967296) 7}"
+  else s!"#{bs.length}.{bs.foldl (fun (h : UInt64) b => (h * 31 + b.toUInt64) % 4294967296) 7}"
 
 def kindNames : List (String × Src.ErrorKind) :=
   [("ConnectionReset", .ConnectionReset), ("BrokenPipe", .BrokenPipe), ("TimedOut", .TimedOut),
@@ -55,6 +56,46 @@ def parseRd (w : String) : Option Framed.Rd :=
     | none => none
   else if w.startsWith "e:" then (parseKind (w.drop 2).toString).map .ioErr
   else none
+
+def encOf : CodecSel → Framed.Enc Framed.Bytes
+  | .lines => Framed.linesEnc
+  | .bytes => Framed.bytesEnc
+  | .len => Framed.lenEnc
+
+def wresStr : Framed.WRes → String
+  | .ok => "ok"
+  | .pending => "pending"
+  | .err k => "err:" ++ kindStr k
+  | .spin => "spin"
+
+/-- `a:<k>` accept up to k bytes, `p` Pending, `z` zero-length write, `e:<Kind>` error -/
+def parseWr (w : String) : Option Framed.Wr :=
+  if w == "p" then some .pending
+  else if w == "z" then some .zero
+  else if w.startsWith "a:" then ((w.drop 2).toString.toNat?).map .accept
+  else if w.startsWith "e:" then (parseKind (w.drop 2).toString).map .err
+  else none
+
+/-- `ok`, `p` Pending, `e:<Kind>` error -/
+def parseFl (w : String) : Option Framed.Fl :=
+  if w == "ok" then some .ok
+  else if w == "p" then some .pending
+  else if w.startsWith "e:" then (parseKind (w.drop 2).toString).map .err
+  else none
+
+/-- an item: hex bytes, or `n:<len>` = `len` times the byte `a` -/
+def parseItem (w : String) : Option (List Nat) :=
+  if w.startsWith "n:" then
+    match (w.drop 2).toString.toNat? with
+    | some n => if n ≤ 20000 then some (List.replicate n 97) else none
+    | none => none
+  else parseHex w
+
+def wrCounters (ws : Framed.WState) : String :=
+  s!"w={ws.nWrite} f={ws.nFlush} s={ws.nShutdown} out={showBytes ws.written} wb={showBytes ws.wbuf}"
+
+def wrAnswer (st : State) (r : Framed.WRes × Framed.WState) : State × String :=
+  ({ st with ws := r.2 }, s!"{wresStr r.1} {wrCounters r.2}")
 
 def rdCounters (rs : Framed.RState) : String :=
   s!"rd={rs.nRead} dec={rs.nDecode} eofc={rs.nDecodeEof} buf={showBytes rs.buf}"
@@ -95,6 +136,27 @@ def step (st : State) (line : String) : State × String :=
       let rs := { st.rs with script := st.rs.script ++ es }
       ({ st with rs := rs }, s!"ok {rs.script.length}")
     | none => (st, "bad-op")
+  | "wscript" :: evs => match evs.mapM parseWr with
+    | some es =>
+      let ws := { st.ws with wscript := st.ws.wscript ++ es }
+      ({ st with ws := ws }, s!"ok {ws.wscript.length}")
+    | none => (st, "bad-op")
+  | "fscript" :: evs => match evs.mapM parseFl with
+    | some es =>
+      let ws := { st.ws with fscript := st.ws.fscript ++ es }
+      ({ st with ws := ws }, s!"ok {ws.fscript.length}")
+    | none => (st, "bad-op")
+  | "sscript" :: evs => match evs.mapM parseFl with
+    | some es =>
+      let ws := { st.ws with sscript := st.ws.sscript ++ es }
+      ({ st with ws := ws }, s!"ok {ws.sscript.length}")
+    | none => (st, "bad-op")
+  | ["send", it] => match parseItem it with
+    | some item => wrAnswer st (Framed.wsend (encOf st.sel) item st.ws)
+    | none => (st, "bad-op")
+  | ["ready"] => wrAnswer st (Framed.wready st.ws)
+  | ["flush"] => wrAnswer st (Framed.wflush st.ws)
+  | ["close"] => wrAnswer st (Framed.wclose st.ws)
   | ["poll"] =>
     let (o, rs) := Framed.pollNext (codecOf st.sel) st.rs
     ({ st with rs := rs }, s!"{outStr o} {rdCounters rs}")
